@@ -37,7 +37,7 @@ def jobs(tier, seed):
     i = 0
     for (um, amt) in RATES:
         for m in (modes if tier == 'thorough' else [modes[i % 3]]):
-            out.append({'fn': 'money_rate', 'cfg': {'um': um, 'amt': amt, 'mode': m,
+            out.append({'fn': 'money_rate', 'cfg': {'um': um, 'amt': amt, 'mode': m, 'converter': i % 3 == 0,
                                                     'flav': 'dec' if i % 2 else 'frac',
                                                     'pair': [['EUR', 'USD'], ['EUR', 'JPY'], ['KWD', 'EUR'], ['JPY', 'KWD']][i % 4]}})
             i += 1
@@ -86,11 +86,27 @@ def money_rate(E, cfg):
             key='money-div-rate:value', info=cfg)
     # non-matching currency
     mo = Money(a, other)
-    C.expect_raises(E, lambda: mo * rate, ValueError, 'non-matching-currency-mul-rejected')
-    C.expect_raises(E, lambda: rate * mo, ValueError, 'non-matching-currency-rmul-rejected')
-    C.expect_raises(E, lambda: mo / rate, ValueError, 'non-matching-currency-div-rejected')
-    C.expect_raises(E, lambda: mt * rate, ValueError, 'term-currency-times-rate-rejected')
-    C.expect_raises(E, lambda: m / rate, ValueError, 'unit-currency-div-rate-rejected')
+
+    def mismatches(tag):
+        C.expect_raises(E, lambda: mo * rate, ValueError, 'non-matching-currency-mul-rejected' + tag)
+        C.expect_raises(E, lambda: rate * mo, ValueError, 'non-matching-currency-rmul-rejected' + tag)
+        C.expect_raises(E, lambda: mo / rate, ValueError, 'non-matching-currency-div-rejected' + tag)
+        C.expect_raises(E, lambda: mt * rate, ValueError, 'term-currency-times-rate-rejected' + tag)
+        C.expect_raises(E, lambda: m / rate, ValueError, 'unit-currency-div-rate-rejected' + tag)
+    mismatches('')
+    if cfg.get('converter'):
+        # an active money converter that knows all three currencies changes nothing: applying a rate is no conversion
+        from quantity.money import MoneyConverter
+        conv = MoneyConverter(cu)
+        conv.update(None, [(ct, Decimal('1.75'), 1), (other, Decimal('9.25'), 1)])
+        with conv:
+            mismatches('-with-active-converter')
+            r2 = m * rate
+            E.check(r2.unit is ct and E.is_rounding(mode, r2.amount / qt, m.amount * true_rate / qt),
+                    'money-x-rate-with-active-converter', key='money-x-rate:value-with-converter', info=cfg)
+        Money.register_converter(conv)
+        mismatches('-with-registered-converter')
+        Money.remove_converter(conv)
     E.observe('res', r.amount)
     if cfg.get('canary'):
         r = m * rate
@@ -237,8 +253,37 @@ def price_sequence(E, cfg):
     r_eu = ExchangeRate(d['eur'], 1, d['usd'], Decimal('1.25'))
     r_eh = ExchangeRate(d['eur'], 1, d['hkd'], Decimal('8.395'))
     r_uh = ExchangeRate(d['usd'], 1, d['hkd'], Decimal('7.8'))
-    seqs = ['div-then-mismatch', 'mul-then-mismatch', 'mul-then-other-rate', 'money-then-mismatch', 'repeat']
+    seqs = ['div-then-mismatch', 'mul-then-mismatch', 'mul-then-other-rate', 'money-then-mismatch', 'repeat',
+            'undeclared-then-declared-mul', 'undeclared-then-declared-rmul', 'undeclared-then-declared-div']
     seq = E.choice('seq', seqs)
+    if seq.startswith('undeclared-then-declared'):
+        import quantity.predefined as pre
+        how = seq.rsplit('-', 1)[1]
+        # the target unit does not exist yet: rejected; once it is declared the same application succeeds
+        # (a currency without any declared price unit: a declared unit convertible to the needed one would be used)
+        jpy = Money.register_currency('JPY')
+        r_ej = ExchangeRate(d['eur'], 1, jpy, Decimal('160.5'))
+        r_jh = ExchangeRate(jpy, 100, d['hkd'], Decimal('5.25'))
+        if how == 'div':
+            price = Quantity(p, d['HKD/kg'])
+            fn = lambda: price / r_jh                                       # -> JPY/kg, undeclared
+            exact = p / Fraction('0.0525')
+        else:
+            price = Quantity(p, d['EUR/kg'])
+            fn = (lambda: price * r_ej) if how == 'mul' else (lambda: r_ej * price)   # -> JPY/kg, undeclared
+            exact = p * Fraction('160.5')
+        target = lambda: d['PPM'].derive_unit_from(jpy, pre.KILOGRAM)
+        C.expect_raises(E, fn, QuantityError, 'seq-undeclared-target-rejected', [how])
+        C.expect_raises(E, fn, QuantityError, 'seq-undeclared-target-rejected-again', [how])
+        tu = target()
+        try:
+            r = fn()
+        except Exception as e:
+            E.fail('seq-declared-target-accepted', key='price-seq:declared-later-%s' % type(e).__name__, info=[how])
+            return
+        E.check(type(r) is d['PPM'] and r.unit is tu and r.amount == exact, 'seq-declared-target-value',
+                key='price-seq:declared-later-value', info=[how])
+        return
     if seq == 'div-then-mismatch':
         first = Quantity(p, d['USD/lb']) / r_eu
         E.check(first.unit is d['EUR/kg'] or first.unit is d['EUR/g'], 'seq-first-ok')
